@@ -99,4 +99,106 @@ theorem ok_idbFinishStep : ActOK (fun _ => True) idbFinishStep (fun _ s => s.ifa
       have : 0 < sm / 1000000000 := Nat.div_pos (by omega) (by decide)
       omega
 
+/-! ### frames -/
+
+/-- predicates that only look at the interface table and at `isbId` -/
+def Stable (J : S → Prop) : Prop := ∀ s s', s'.ifaces = s.ifaces → s'.isbId = s.isbId → J s → J s'
+
+theorem stable_true : Stable (fun _ => True) := fun _ _ _ _ _ => trivial
+
+theorem inv_of_ifaces {s s' : S} (h : s'.ifaces = s.ifaces) (hI : Inv s) : Inv s' := by
+  intro i hi; rw [h] at hi; exact hI i hi
+
+/-- a pure step that leaves interfaces and isbId alone and reports no panic -/
+theorem ok_frame {α} {J : S → Prop} (hJ : Stable J) (g : Act α)
+    (hfr : ∀ s, (g s).2.ifaces = s.ifaces ∧ (g s).2.isbId = s.isbId)
+    (hnp : ∀ s e, (g s).1 = .error e → e.isPanic = false) : ActOK J g (fun _ s => J s) := by
+  intro s hI hP
+  have h1 := hfr s
+  refine ⟨inv_of_ifaces h1.1 hI, ?_⟩
+  cases hr : (g s).1 with
+  | ok a => exact hJ s _ h1.1 h1.2 hP
+  | error e => exact hnp s e hr
+
+theorem tr_frameS {J : S → Prop} (hJ : Stable J) (g : S → S) (h1 : ∀ s, (g s).ifaces = s.ifaces) (h2 : ∀ s, (g s).isbId = s.isbId) :
+    Tr J (modS g) (fun _ s => J s) :=
+  Tr.act (ok_frame hJ _ (fun s => ⟨h1 s, h2 s⟩) (fun s e h => by cases h))
+
+theorem tr_decBlk {J : S → Prop} (hJ : Stable J) (n : Nat) : Tr J (decBlk n) (fun _ s => J s) :=
+  tr_frameS hJ _ (fun _ => rfl) (fun _ => rfl)
+
+theorem tr_discard {J : S → Prop} (hJ : Stable J) (n : Nat) : Tr J (discard n) (fun _ s => J s) := by
+  unfold discard
+  exact Tr.bind (Tr.io _) (fun _ => tr_decBlk hJ n)
+
+theorem tr_discardW {J : S → Prop} (hJ : Stable J) (n : Nat) : Tr J (discardW n) (fun _ s => J s) := by
+  unfold discardW
+  exact Tr.bind (Tr.io _) (fun _ => tr_decBlk hJ n)
+
+theorem tr_getS' {J : S → Prop} : Tr J getS (fun _ s => J s) :=
+  Tr.weaken tr_getS (fun _ h => h) (fun _ _ h => h.2)
+
+theorem tr_discardBlock {J : S → Prop} (hJ : Stable J) : Tr J discardBlock (fun _ s => J s) := by
+  unfold discardBlock
+  exact Tr.bind tr_getS' (fun s => tr_discard hJ _)
+
+theorem tr_readBlock {J : S → Prop} (hJ : Stable J) : Tr J readBlock (fun _ s => J s) := by
+  unfold readBlock
+  refine Tr.bind (Tr.io _) (fun h => Tr.bind (R := fun _ s => J s) (Tr.act (ok_frame hJ _ (fun s => ⟨rfl, rfl⟩) (fun s e he => by cases he))) (fun b => ?_))
+  split
+  · refine Tr.bind (Tr.io _) (fun m => Tr.act (ok_frame hJ _ (fun s => ?_) (fun s e he => ?_)))
+    · unfold blockMagicStep; split
+      · exact ⟨rfl, rfl⟩
+      · split <;> exact ⟨rfl, rfl⟩
+    · unfold blockMagicStep at he
+      split at he
+      · cases he
+      · split at he
+        · cases he
+        · cases he; rfl
+  · exact tr_frameS hJ _ (fun _ => rfl) (fun _ => rfl)
+
+theorem tr_readOption {J : S → Prop} (hJ : Stable J) : Tr J readOption (fun _ s => J s) := by
+  unfold readOption
+  refine Tr.bind (R := fun _ s => J s) (Tr.act (ok_frame hJ _ (fun s => ?_) (fun s e he => ?_))) (fun more => ?_)
+  · unfold optStartStep; split <;> exact ⟨rfl, rfl⟩
+  · unfold optStartStep at he; split at he <;> cases he
+  · split
+    · refine Tr.bind (Tr.io _) (fun h => Tr.bind (R := fun _ s => J s) (Tr.act (ok_frame hJ _ (fun s => ?_) (fun s e he => ?_))) (fun r => ?_))
+      · unfold optHeadStep; simp only; split
+        · split <;> exact ⟨rfl, rfl⟩
+        · split <;> exact ⟨rfl, rfl⟩
+      · unfold optHeadStep at he; simp only at he
+        split at he
+        · split at he
+          · cases he; rfl
+          · cases he
+        · split at he <;> cases he
+      · cases r with
+        | none => exact Tr.pure _ (fun _ h => h)
+        | some length =>
+          refine Tr.bind (Tr.io _) (fun v => Tr.bind (tr_frameS hJ _ (fun _ => rfl) (fun _ => rfl)) (fun _ => ?_))
+          dsimp only
+          split
+          · exact Tr.bind (tr_discard hJ _) (fun _ => tr_decBlk hJ _)
+          · exact tr_decBlk hJ _
+    · exact Tr.pure _ (fun _ h => h)
+
+/-- an option loop keeps every stable predicate that its handler keeps -/
+theorem tr_optLoop {J : S → Prop} (hJ : Stable J) (handle : Nat → Bytes → Act Unit)
+    (hh : ∀ c v, ActOK J (handle c v) (fun _ s => J s)) : Tr J (optLoop handle) (fun _ s => J s) := by
+  unfold optLoop
+  refine Tr.iter (Tr.bind (tr_readOption hJ) (fun _ => Tr.act ?_))
+  intro s hI hP
+  unfold optSwitch
+  split
+  · exact ⟨hI, hP⟩
+  · have := hh s.optCode s.optVal s hI hP
+    cases hr : handle s.optCode s.optVal s with
+    | mk r s' =>
+      rw [hr] at this
+      cases r with
+      | ok a => exact ⟨this.1, this.2⟩
+      | error e => exact ⟨this.1, this.2⟩
+
 end Gp.PcapNg
